@@ -1022,8 +1022,8 @@ fn parity_reps() -> Vec<(&'static str, &'static str, &'static str)> {
 
 // ----------------------------------------------------------------------- run
 
-pub fn run(rep: &mut Report, drv: &mut Driver, p: &mut Prng, thorough: bool) {
-    // class representatives first (independent of the seed)
+/// the class representatives (independent of the seed)
+pub fn run_representatives(rep: &mut Report, drv: &mut Driver) {
     for (body, ret, want) in VALUE_REPS {
         check_value_rep(rep, body, ret, want);
     }
@@ -1032,7 +1032,11 @@ pub fn run(rep: &mut Report, drv: &mut Driver, p: &mut Prng, thorough: bool) {
     }
     let reps = representatives();
     check_parse(rep, drv, &reps);
-    // random nests
+}
+
+/// random nests (after the exhaustive operator sequences of section A, whose
+/// failing inputs are minimal)
+pub fn run_random(rep: &mut Report, drv: &mut Driver, p: &mut Prng, thorough: bool) {
     let n = if thorough { 60000 } else { 5000 };
     let cases: Vec<Case> = (0..n).map(|i| Case { e: random_expr(p, 2), layout: (i % 3) as u8 }).collect();
     check_parse(rep, drv, &cases);
